@@ -95,8 +95,19 @@ def run_case(case, rec, ssj=None):
             rng.shuffle(vals)
             L['data']['lattr2'] = vals
             L['dtypes'] = dict(L['dtypes'], lattr2=L['dtypes'].get('lattr', 'object'))
+            rkey2 = 'lid'
+            if rng.random() < 0.5:
+                # ... and a second key column holding the same ids in another order is the right key
+                ids2 = list(L['data']['lid'])
+                rng.shuffle(ids2)
+                L['cols'] = L['cols'] + ['lid2']
+                L['data']['lid2'] = ids2
+                if 'lid' in L['dtypes']:
+                    L['dtypes']['lid2'] = L['dtypes']['lid']
+                rkey2 = 'lid2'
+                rec.count('selfjoin_two_key_columns')
             R = L
-            call.update(ltable=L, rtable=L, candset=C, r_key='lid', r_attr='lattr2')
+            call.update(ltable=L, rtable=L, candset=C, r_key=rkey2, r_attr='lattr2')
         Cdf = T.make_table(C)
         objs = {'tok': tk, 'filter': flt, 'candset': Cdf}
         if selfjoin:
